@@ -38,14 +38,59 @@ fn render(rows: &[Row], rng: &mut Rng) -> String {
     for r in rows {
         let (l, rt) = if r.left < 0 { (-1i16, -1i16) } else { (r.left, r.left) };
         let pos = *rng.pick(&POS);
-        s.push_str(&format!("{},{},{},{},{},{},*,*,*,A,*,*,*,*\n", r.surface, l, rt, rng.range(-500, 9000), r.surface, pos));
+        s.push_str(&format!("{},{},{},{},{},{},*,*,*,A,*,*,*,*\n", csv_field(&r.surface), l, rt, rng.range(-500, 9000), csv_field(&r.surface), pos));
     }
     s
 }
 
 /// small alphabets with 1-, 2-, 3- and 4-byte characters so that keys share prefixes at byte level too
 // ('#' and '\'' are ordinary key characters for the dictionary but meaningful to some CSV dialects)
-const ALPHA: [&str; 16] = ["a", "#", "b", "é", "ä", "あ", "い", "ア", "'", "京", "亰", "東", "𠮟", "𠮷", "\u{10FFFF}", "\u{7f}"];
+// (' ', ',' and '"' too: a surface may contain them -- the CSV field is then quoted -- and they must neither be trimmed nor split)
+const ALPHA: [&str; 19] = ["a", "#", "b", " ", "é", "ä", "あ", ",", "い", "ア", "'", "京", "\"", "亰", "東", "𠮟", "𠮷", "\u{10FFFF}", "\u{7f}"];
+
+/// a CSV field as the csv crate's default dialect wants it: quoted when it holds a comma, a quote, a line break or outer blanks
+fn csv_field(s: &str) -> String {
+    if s.contains(',') || s.contains('"') || s.contains('\n') || s.starts_with(' ') || s.ends_with(' ') {
+        format!("\"{}\"", s.replace('"', "\"\""))
+    } else {
+        s.to_string()
+    }
+}
+
+/// independent reading of a lexicon CSV as far as lookup is concerned: EVERY line is a row (no header, no comment lines),
+/// fields are separated by commas outside double quotes, a doubled quote inside quotes is one quote, nothing is trimmed
+fn split_record(line: &str) -> Vec<String> {
+    let mut out = vec![];
+    let mut cur = String::new();
+    let mut quoted = false;
+    let mut it = line.chars().peekable();
+    let mut at_start = true;
+    while let Some(c) = it.next() {
+        if quoted {
+            if c == '"' {
+                if it.peek() == Some(&'"') {
+                    cur.push('"');
+                    it.next();
+                } else {
+                    quoted = false;
+                }
+            } else {
+                cur.push(c);
+            }
+        } else if c == '"' && at_start {
+            quoted = true;
+        } else if c == ',' {
+            out.push(std::mem::take(&mut cur));
+            at_start = true;
+            continue;
+        } else {
+            cur.push(c);
+        }
+        at_start = false;
+    }
+    out.push(cur);
+    out
+}
 
 fn gen_surface(rng: &mut Rng, existing: &[Row]) -> String {
     let k = rng.below(10);
@@ -71,7 +116,7 @@ fn gen_surface(rng: &mut Rng, existing: &[Row]) -> String {
     let n = 1 + rng.below(4);
     let mut s = String::new();
     // sub-alphabet per key keeps collisions frequent
-    let lo = rng.below(12) as usize;
+    let lo = rng.below(15) as usize;
     for _ in 0..n {
         s.push_str(ALPHA[lo + rng.below(4) as usize]);
     }
@@ -208,8 +253,8 @@ fn parse_rows(csv: &str) -> Vec<Row> {
     csv.lines()
         .filter(|l| !l.is_empty())
         .map(|l| {
-            let c: Vec<&str> = l.split(',').collect();
-            Row { surface: c[0].to_string(), left: c[1].parse().unwrap() }
+            let c = split_record(l);
+            Row { surface: c[0].clone(), left: c[1].parse().unwrap() }
         })
         .collect()
 }
@@ -356,7 +401,7 @@ fn run_case(sink: &mut Sink, csvs: &[String], texts: &[String], exacts: &[String
         dterms.push(format!("(\"{}\"%string, \"{}\"%string, {})", hex(&trie), hex(&tbl), rows));
         sink.tag(&format!("trie_units={}", trie.len() / 4 / 256 * 256));
     }
-    let term = format!("check_case_c04 {} {}%nat {} {}", clist(dterms), fuel, clist(qterms), clist(eterms));
+    let term = format!("check_case_c04i {} {}%nat {} {}", clist(dterms), fuel, clist(qterms), clist(eterms));
     // shape tags
     sink.tag(&format!("layers={}", csvs.len()));
     let nrows: usize = all.iter().map(|r| r.len()).sum();
@@ -437,7 +482,7 @@ fn gen_case(rng: &mut Rng, layers: usize, shape: u64) -> (Vec<String>, Vec<Strin
 }
 
 pub fn run(args: &Args) {
-    let mut sink = Sink::new("C04", &args.out, &["Model.LexSet"], args.seed, &args.tier);
+    let mut sink = Sink::new("C04", &args.out, &["Model.LexSet", "Model.IndexBuild"], args.seed, &args.tier);
     sink.shard_size = 12;
     sink.rule("stacks of 1..15 dictionaries compiled by DictBuilder from generated CSVs (keys over a 16-letter alphabet of 1/2/3/4-byte characters incl. '#' and the apostrophe; keys extended/cut from other keys so that keys are prefixes of others; homographs up to 127; keys shared between layers; left_id=-1 rows) x texts concatenated from keys and letters, LexiconSet::lookup at EVERY byte offset (incl. inside characters) x exact-surface MorphemeList::lookup of keys / near-keys; each case also certifies every trie with the verified enumerator; non-trivial = at least 2 entries returned and (a key is a proper prefix of another, or homographs, or more than one layer); distinct by generated Coq term");
     if let Some(p) = &args.replay {
